@@ -5,7 +5,6 @@ SUP = ["src/str/vsnprintf_s.c", "src/wchar/wcstombs_s.c", "src/str/safe_str_cons
 ROWS = [
     # name, file, wide, scanf, call
     ("vprintf_s", "src/io/vprintf_s.c", 0, 0, "n_vprintf(fmt, &N)"),
-    ("vfprintf_s", "src/io/vfprintf_s.c", 0, 0, "n_vfprintf(fmt, &N)"),
     ("sscanf_s", "src/io/sscanf_s.c", 0, 1, "sscanf_s(inbuf, fmt, &N)"),
     ("vsscanf_s", "src/io/vsscanf_s.c", 0, 1, "n_vsscanf(fmt, &N)"),
     ("fscanf_s", "src/io/fscanf_s.c", 0, 1, "fscanf_s(VH_STREAM, fmt, &N)"),
@@ -36,15 +35,16 @@ def jobs(prop, tier, only_fn=None):
     out = []
     if prop != "C09":
         return out
-    FL = 4 if tier == "quick" else 7
     for name, f, wide, sc, call in ROWS:
         if only_fn and name != only_fn:
             continue
+        # printf grammar has flag x width x precision interplay (e.g. "%-0-n" needs 5 characters): one more character than scanf
+        FL = (5 if not sc else 4) if tier == "quick" else 7
         files = sorted(set([f] + (WIDEF if wide else NARROW) + SUP))
         out.append(Job("%s.C09.fl%d" % (name, FL), "C09", "h_fmtn.c", files,
                        defines=["-DWIDE=%d" % wide, "-DSCANF=%d" % sc, "-DFL=%d" % FL, "-DRB=%d" % (FL + 1), "-DCALL=%s" % call] + (["-DVH_MEMSET_WORD"] if wide else []),
                        models=("libc_models.c", "fmt_models.c"), native_models=("fmt_models.c",), object_bits=10, unwind_default=FL + 2, fn=name,
                        unwind_rules=[(r"vh_ref_has_n", FL + 3), (r"^memset\.", 40), (r"^(strcat|strlen|strcpy)\.", 48)],
-                       bounds={"format": "fully symbolic, <= %d characters over a 16-symbol alphabet (%% n l h 5 * . d a space $ [ ] Z 1 s)" % FL,
+                       bounds={"format": "fully symbolic, <= %d characters over a 22-symbol alphabet (%% n l h 5 * . d a space $ [ ] Z 1 s 0 - + # ' I)" % FL,
                                "libc": "contract model with independent reference directive parser"}, timeout=300 if tier == "quick" else 1800))
     return out
